@@ -31,11 +31,11 @@ var c03Kids = []string{
 
 var c03Containers = [][2]string{
 	{"<div><p>", "</p></div>"},
+	{"", ""}, // directly in <body>
 	{"<ul><li>", "</li></ul>"},
 	{"<blockquote>", "</blockquote>"},
 	{"<table><tr><td>", "</td></tr></table>"},
 	{"<div>", "</div>"},
-	{"", ""}, // directly in <body>
 }
 
 type c03Sym struct {
